@@ -429,6 +429,22 @@ pub fn run_check(engine: &dyn Engine, opts: &Options) -> i32 {
         harness_errors.push(format!("only {} of {} jobs produced a result", results.len(), njobs));
     }
 
+    // thorough-only extra arm
+    let mut extra_evidence = J::Null;
+    if opts.tier == Tier::Thorough && std::env::var("VERIF_SKIP_EXTRA").is_err() {
+        if let Some(x) = engine.thorough_extra(&ExtraCtx {
+            root: opts.root.clone(),
+            master_seed: opts.master_seed,
+            workers: opts.workers,
+        }) {
+            println!("extra arm '{}': {} executions, {} violation(s)", x.name, x.evaluations, x.violations.len());
+            total.evaluations += x.evaluations;
+            extra_evidence = x.evidence;
+            violations.extend(x.violations);
+            harness_errors.extend(x.harness_errors);
+        }
+    }
+
     // findings
     let known = load_known(&opts.root);
     let mut reported: Vec<(String, PathBuf)> = Vec::new();
@@ -545,6 +561,7 @@ pub fn run_check(engine: &dyn Engine, opts: &Options) -> i32 {
                 .set("real", J::Arr(info.real_components.iter().map(|s| J::str(s)).collect()))
                 .set("stub", J::Arr(info.stub_components.iter().map(|s| J::str(s)).collect())),
         )
+        .set("extra_arm", extra_evidence)
         .set("notes", J::Arr(total.notes.iter().map(|s| J::str(s)).collect()))
         .set("unreproducible_worker_deaths", J::u(unreproducible_deaths))
         .set("known_findings_matched", J::Arr(known_matched.iter().map(|s| J::str(s)).collect()))
